@@ -33,13 +33,17 @@ structure Exec where
   voterReward : Int
   deriving Repr, DecidableEq
 
-def execute (slash burn : Int) (anyVoter : Bool) (o : Outcome) : Exec :=
+/-- `burn` is the dispute's burn amount at execution: 5 % of the first round's fee plus the fees of all further rounds
+(`roundFees`), which are burned or given to the voters on top (fix 26954c3: they are not subtracted a second time from what the
+first round's fee is worth) -/
+def execute (slash burn : Int) (anyVoter : Bool) (o : Outcome) (roundFees : Int := 0) : Exec :=
   let h := if anyVoter then halfBurn burn else burn
   let vr := if anyVoter then halfBurn burn else 0
+  let burn0 := burn - roundFees
   match o with
-  | .invalid => ⟨h, slash, slash - burn, 0, vr⟩
-  | .support => ⟨h, 0, slash - burn, slash, vr⟩
-  | .against => ⟨h, slash + (slash - burn), 0, 0, vr⟩
+  | .invalid => ⟨h, slash, slash - burn0, 0, vr⟩
+  | .support => ⟨h, 0, slash - burn0, slash, vr⟩
+  | .against => ⟨h, slash + (slash - burn0), 0, 0, vr⟩
 
 /-- `fee·pot·10^6 / feeTotal` as LegacyDec (before truncation) -/
 def share12Dec (fee pot feeTotal : Int) : Int :=
